@@ -198,3 +198,26 @@ impl LaxToken {
         e.storage().persistent().set(&LaxKey::Bal(to), &(tb + amount));
     }
 }
+
+// ---------------- capped token whose cap is set later (or never) ----------------
+#[contract]
+pub struct TokCapLate;
+
+#[contractimpl]
+impl TokCapLate {
+    pub fn mint(e: &Env, to: Address, amount: i128) {
+        stellar_tokens::fungible::capped::check_cap(e, amount);
+        Base::mint(e, &to, amount);
+    }
+    pub fn set_cap(e: &Env, cap: i128) {
+        stellar_tokens::fungible::capped::set_cap(e, cap);
+    }
+    pub fn query_cap(e: &Env) -> i128 {
+        stellar_tokens::fungible::capped::query_cap(e)
+    }
+}
+
+#[contractimpl(contracttrait)]
+impl FungibleToken for TokCapLate {
+    type ContractType = Base;
+}
